@@ -117,6 +117,12 @@ func MakeRemoteSource(sourceType string, u *url.URL, subPath string) (RemoteSour
 }
 
 func makeRemoteSource(sourceType string, u *url.URL, subPath string) (RemoteSource, error) {
+	if u.Host == "" && u.Path == "" && u.Opaque == "" {
+		// A bare scheme names no package, and printed in front of a sub-path
+		// it reads as a different address: "https:" + "//" + "host/x".
+		return RemoteSource{}, fmt.Errorf("must contain a URL with a host or a path")
+	}
+
 	typeImpl, ok := remoteSourceTypes[sourceType]
 	if !ok {
 		if sourceType == u.Scheme {
